@@ -3,6 +3,13 @@
 (* placed around the batching threshold, and real snapshots taken by          *)
 (* ActiveTable.Snapshot while a writer keeps writing) loaded by the real      *)
 (* Manager.Restore; the restored table read back through Raft.                *)
+(* Backup files: the real backup.Backup client against the real Cluster and   *)
+(* Maintenance services (vdrive backup): "backupdone" (the manifest lists     *)
+(* every table), "stream"/"restored" per table (content before the backup vs  *)
+(* content after the restore, into changed tables / another cluster),         *)
+(* "restoredpit" (backup taken while a writer writes: the restored content is *)
+(* the content at ONE point of the acknowledged write history), "backupcheck" *)
+(* (a damaged file or manifest is refused and its table left as it was).      *)
 EXTENDS Integers, Sequences, FiniteSets, Json, TLC
 
 CONSTANTS TraceFile, Deviations
@@ -57,13 +64,34 @@ TSnapshot ==
   /\ content' = MapOf(EmptyMap, Ev.pairs) /\ declared' = Ev.index
   /\ UNCHANGED writes
 
+\* {"ev":"backupdone","tables":[..],"listed":[..]} : the manifest lists exactly the tables of the cluster
+TBackupDone == /\ IsEvent("backupdone")
+               /\ {Ev.tables[i] : i \in 1..Len(Ev.tables)} = {Ev.listed[i] : i \in 1..Len(Ev.listed)}
+               /\ Len(Ev.listed) = Len(Ev.tables)
+               /\ UNCHANGED <<content, declared, writes>>
+
+Step(mp, w) == IF w.del THEN [x \in DOMAIN mp \ {w.k} |-> mp[x]]
+               ELSE [x \in DOMAIN mp \cup {w.k} |-> IF x = w.k THEN w.v ELSE mp[x]]
+RECURSIVE Prefixes(_, _)
+Prefixes(mp, ws) == IF ws = <<>> THEN {mp} ELSE {mp} \cup Prefixes(Step(mp, Head(ws)), Tail(ws))
+
+\* {"ev":"restoredpit","exists":bool,"kvs":[..],"lidx":n} : a backup taken while writes continue, restored: the content
+\* at ONE point of the write history (the "write" events before it), nothing else
+TRestoredPit ==
+  /\ IsEvent("restoredpit")
+  /\ Ev.exists
+  /\ Len(Ev.kvs) = Cardinality({Ev.kvs[i].k : i \in 1..Len(Ev.kvs)})
+  /\ MapOf(EmptyMap, Ev.kvs) \in Prefixes(EmptyMap, writes)
+  /\ Ev.lidx = 0
+  /\ writes' = <<>> /\ UNCHANGED <<content, declared>>
+
 \* {"ev":"backupcheck","corrupted":bool,"refused":bool} : a backup file whose checksum does not match its manifest is refused
 TBackupCheck == /\ IsEvent("backupcheck") /\ (Ev.corrupted => Ev.refused) /\ (~Ev.corrupted => ~Ev.refused)
                 /\ UNCHANGED <<content, declared, writes>>
 
 TReset == IsEvent("reset") /\ content' = EmptyMap /\ declared' = 0 /\ writes' = <<>>
 
-TNext == TStream \/ TRestored \/ TWrite \/ TSnapshot \/ TBackupCheck \/ TReset
+TNext == TStream \/ TRestored \/ TWrite \/ TSnapshot \/ TBackupDone \/ TRestoredPit \/ TBackupCheck \/ TReset
 TSpec == TInit /\ [][TNext]_vars
 
 TraceAccepted ==
